@@ -79,3 +79,154 @@ for _name, _idx in (("first", "0"), ("last", "-1")):
               "implies(isinstance(obj, (str, int)) or obj is None, result is None)"],
         raises={},
     )
+
+# ---- one-line string filters: the filter IS the named library function of the Liquid string form of its input ----------------------
+# (library functions are uninterpreted: a contract `result == val.upper()` pins which function of which argument is returned)
+SV = Union(Str, NoneT)
+for _name, _expr in (("upcase", "upper"), ("downcase", "lower"), ("capitalize", "capitalize"),
+                     ("strip", "strip"), ("lstrip", "lstrip"), ("rstrip", "rstrip")):
+    contract(
+        f"liquid2.builtin.filters.string:{_name}",
+        props=["C19", "C02"],
+        params={"val": SV},
+        inline=TLS,
+        post=[f"implies(isinstance(val, str), result == val.{_expr}())",
+              f"implies(val is None, result == ''.{_expr}())"],
+        raises={},
+    )
+
+contract(
+    "liquid2.builtin.filters.string:remove",
+    props=["C19", "C02"],
+    params={"val": SV, "arg": ARG},
+    inline=TLS,
+    post=["implies(isinstance(val, str) and isinstance(arg, str), result == val.replace(arg, ''))",
+          "implies(isinstance(val, str) and arg is True, result == val.replace('true', ''))"],
+    raises={},
+)
+
+contract(
+    "liquid2.builtin.filters.string:remove_first",
+    props=["C19", "C02"],
+    params={"val": SV, "arg": ARG},
+    inline=TLS,
+    post=["implies(isinstance(val, str) and isinstance(arg, str), result == val.replace(arg, '', 1))",
+          # nothing to remove: unchanged
+          "implies(isinstance(val, str) and isinstance(arg, str) and arg not in val, result == val)"],
+    raises={},
+)
+
+contract(
+    "liquid2.builtin.filters.string:replace",
+    props=["C19", "C02"],
+    params={"val": SV, "seq": ARG, "sub": ARG},
+    inline=TLS,
+    post=["implies(isinstance(val, str) and isinstance(seq, str) and isinstance(sub, str), result == val.replace(seq, sub))",
+          "implies(isinstance(val, str) and isinstance(seq, str) and sub is None, result == val.replace(seq, ''))"],
+    raises={},
+)
+
+contract(
+    "liquid2.builtin.filters.string:replace_first",
+    props=["C19", "C02"],
+    params={"val": SV, "seq": ARG, "sub": ARG},
+    inline=TLS,
+    post=["implies(isinstance(val, str) and isinstance(seq, str) and isinstance(sub, str), result == val.replace(seq, sub, 1))",
+          "implies(isinstance(val, str) and isinstance(seq, str) and isinstance(sub, str) and seq not in val, result == val)"],
+    raises={},
+)
+
+# remove_last / replace_last, from their definition: the LAST occurrence (wherever it is, position 0 included) is cut out /
+# replaced, everything else is kept; no occurrence: unchanged
+contract(
+    "liquid2.builtin.filters.string:remove_last",
+    props=["C19", "C02"],
+    params={"val": Str, "arg": Str},
+    inline=TLS,
+    post=["implies(arg != '' and arg in val, result == val[:val.rfind(arg)] + val[val.rfind(arg) + len(arg):])",
+          "implies(arg != '' and arg not in val, result == val)",
+          "implies(arg == '', result == val)"],
+    raises={},
+)
+
+contract(
+    "liquid2.builtin.filters.string:replace_last",
+    props=["C19", "C02"],
+    params={"val": Str, "seq": Str, "sub": Str},
+    inline=TLS,
+    post=["implies(seq != '' and seq in val, result == val[:val.rfind(seq)] + sub + val[val.rfind(seq) + len(seq):])",
+          "implies(seq != '' and seq not in val, result == val)",
+          "implies(seq == '', result == val + sub)"],
+    raises={},
+)
+
+# split: inverse of join for a non-empty separator (library fact sep.join(s.split(sep)) == s), the documented special cases otherwise
+contract(
+    "liquid2.builtin.filters.string:split",
+    props=["C19", "C02"],
+    params={"val": Str, "sep": Union(Str, NoneT)},
+    inline=TLS,
+    post=["implies(isinstance(sep, str) and sep != '' and val != '' and val != sep, sep.join(result) == val and len(result) >= 1)",
+          "implies(isinstance(sep, str) and sep != '' and (val == '' or val == sep), len(result) == 0)",
+          "implies(sep is None or sep == '', len(result) == len(val))"],
+    raises={},
+)
+
+# truncatewords, from its definition: at most `num` (at least 1) whitespace-separated words; the ellipsis is appended exactly when
+# words were dropped
+contract(
+    "liquid2.builtin.filters.string:truncatewords",
+    props=["C19", "C02"],
+    params={"val": Str, "num": Int, "end": Str},
+    globals_={"MAX_STR_INT": Int},
+    pre=["MAX_STR_INT == 0 or MAX_STR_INT >= 640"],
+    inline=TLS + ["liquid2.limits:to_int"],
+    post=["implies(num < 2147483647 and len(val.split()) <= max(num, 1), result == ' '.join(val.split()))",
+          "implies(num < 2147483647 and len(val.split()) > max(num, 1), result == ' '.join(val.split()[:max(num, 1)]) + end)",
+          "implies(num >= 2147483647, result == val)"],
+    raises={},
+)
+
+# ---- url_encode / url_decode / escape / escape_once: inverse and idempotence laws (no auto-escape: plain strings in, plain out) -----
+ENV_PLAIN = Rec("Environment", _module="liquid2.environment", auto_escape=FalseT)
+
+contract(
+    "liquid2.builtin.filters.string:url_encode",
+    props=["C19", "C02"],
+    params={"val": Str, "environment": ENV_PLAIN},
+    partial_domain="auto_escape off: the Markup-wrapping branch is outside this domain",
+    inline=TLS,
+    # url_decode undoes url_encode (library fact unquote_plus(quote_plus(s)) == s, applied to the value really passed)
+    post=["urllib.parse.unquote_plus(result) == val", "result == urllib.parse.quote_plus(val)"],
+    raises={},
+)
+
+contract(
+    "liquid2.builtin.filters.string:url_decode",
+    props=["C19", "C02"],
+    params={"val": Str},
+    inline=TLS,
+    post=["result == urllib.parse.unquote_plus(val)"],
+    raises={},
+)
+
+contract(
+    "liquid2.builtin.filters.string:escape",
+    props=["C19", "C02"],
+    params={"val": Str, "environment": ENV_PLAIN},
+    partial_domain="auto_escape off: the markupsafe branch is outside this domain",
+    inline=TLS,
+    post=["result == html.escape(val)"],
+    raises={},
+)
+
+contract(
+    "liquid2.builtin.filters.string:escape_once",
+    props=["C19", "C02"],
+    params={"val": Str, "environment": ENV_PLAIN},
+    partial_domain="auto_escape off: the markupsafe branch is outside this domain",
+    inline=TLS,
+    # escaping what is already escaped changes nothing: escape_once is idempotent (library fact unescape(escape(s)) == s)
+    post=["result == html.escape(html.unescape(val))", "html.escape(html.unescape(result)) == result"],
+    raises={},
+)
